@@ -34,6 +34,8 @@ CHECKS = {
          'Round trip through the real serializer and parser equals the TLA+ Ser for every enumerated frame tree; for every enumerated byte string the real parser is total, gives the same frames/errors for every chunking, and its peak allocation is bounded by the bytes received.'),
  'C11': ('model_checking', 'TLC trace validation of the redo-log relation (spec/Ferrous.tla AofApply/AofStep): after every request the frames appended to the real AOF, re-executed with the reference semantics, must deterministically reproduce the live dataset; plus re-execution of the whole file on an empty real server with dump comparison',
          'For every explored history (all value types, direct and MULTI/EXEC, several databases) the AOF consists of complete frames after every request and replays, request by request and as a whole on a real empty server, to the live dataset (values; TTL presence); an entry whose replay is not deterministic is rejected.'),
+ 'C12': ('model_checking', 'TLC trace validation of scripts generated from a DSL: the spec runs the recorded program through the same Exec1 as direct commands, as one step, with the standard RESP<->Lua conversions (spec/Ferrous.tla RunProg); every generator command wrapped in redis.call/pcall, return-value shapes, error flow, EVALSHA twins, sandbox probes — each an independent segment; atomicity through the concurrent C07 workload',
+         'For every explored segment the reply of the script and the dataset afterwards equal what the direct command semantics prescribe after conversion; forbidden globals and commands are unreachable; known non-standard conversions and the UTF-8 restriction are listed findings.'),
 }
 NOT_YET = {}
 
